@@ -831,7 +831,13 @@ pub fn c10_judge(c: &C10Case, obs: &mut Obs) -> Result<(), String> {
         plain.update(&mut x, t);
         sub.update(&mut y, t);
         let s = t as f64 - tm.delay as f64;
-        let ds = mv_model::ulp32(s as f32) as f64 * 2.0 + 1e-7 * tm.cycle as f64;
+        // no rounding window when the f32 subtraction t - delay is exact and the cycle is a power of
+        // two (then the position is exact as well): the boundary instants themselves are judged
+        let exact_t = {
+            let r = t as f64 - tm.delay as f64;
+            r - t as f64 == -(tm.delay as f64) && exact32(r) && (tm.cycle as f64).log2().fract() == 0.0
+        };
+        let ds = if exact_t { 0.0 } else { mv_model::ulp32(s as f32) as f64 * 2.0 + 1e-7 * tm.cycle as f64 };
         let ph = tm.phase_s(s);
         let ph_lo = tm.phase_s(s - ds);
         let ph_hi = tm.phase_s(s + ds);
@@ -1074,7 +1080,7 @@ fn boundary_repeat_strategy() -> impl Strategy<Value = Rep> {
     prop_oneof![
         3 => Just(Rep::None),
         4 => prop::sample::select(vec![0u32, 1, 2, 3, 7]).prop_map(Rep::Times),
-        2 => prop::sample::select(vec![u32::MAX - 1, u32::MAX, 1 << 24]).prop_map(Rep::Times),
+        2 => prop::sample::select(vec![u32::MAX - 1, u32::MAX, 1 << 24, (1 << 24) + 1, (1 << 25) + 2, (1 << 25) + 3]).prop_map(Rep::Times),
         3 => Just(Rep::Infinite),
     ]
 }
